@@ -736,6 +736,89 @@ theorem getitem_slicePath_torch (bmap : List Nat → List Nat) (nR nC : Nat) (ra
   rw [eR, eC]
   simp [srcIndex]
 
+/-! ## Landing of /repo 716435a (index-count guard) and the Matmul `_diagonal` row·column theorem -/
+
+/-- **the index-count guard is torch's too-many-indices rule**: for every rank `d` and every index tuple with at most one
+ellipsis, `len(index) > ndimension` after the library's ellipsis fill and padding holds iff the tuple has more than `d`
+non-ellipsis items — exactly when `torch.Tensor.__getitem__` raises "too many indices". -/
+theorem tooManyIndices_iff_torch (d : Nat) (idx : List Item) (h1 : (idx.filter isEll).length ≤ 1) :
+    tooManyIndices d idx = true ↔ d < (idx.filter (fun i => !isEll i)).length :=
+  tooMany_iff_count d idx h1
+
+/-- **model raises too-many-indices ⇔ torch raises it** (front end with the guard, any operator / batch shape) -/
+theorem frontEndG_tooMany_iff (op : Opv) (bdims : List Nat) (idx : List Item) (h1 : (idx.filter isEll).length ≤ 1) :
+    frontEndG op bdims idx = .tooMany ↔ bdims.length + 2 < (idx.filter (fun i => !isEll i)).length := by
+  rw [← tooMany_iff_count _ idx h1]
+  unfold frontEndG
+  by_cases h : tooManyIndices (bdims.length + 2) idx = true
+  · simp [h]
+  · simp only [h, Bool.false_eq_true, if_false, iff_false]
+    split <;> simp
+
+/-- the ellipsis expansion fails exactly on the guarded tuples (so `frontEnd` alone already rejected them; the guard names the error) -/
+theorem expandEllipsis_none_iff_tooMany (d : Nat) (idx : List Item) (h1 : (idx.filter isEll).length ≤ 1) :
+    expandEllipsis d idx = none ↔ tooManyIndices d idx = true := by
+  constructor
+  · exact expandEllipsis_none_tooMany d idx h1
+  · intro h
+    cases he : expandEllipsis d idx with
+    | none => rfl
+    | some e => rw [expandEllipsis_some_not_tooMany d idx e he] at h; cases h
+
+/-- `frontEnd_eq_torch` restated for the guarded front end: an answer implies the guard did not fire, and is torch's. -/
+theorem frontEndG_eq_torch (op : Opv) (h : Built op) (bdims : List Nat) (idx : List Item) (sh : List Nat) (vals : List Int)
+    (hres : frontEndG op bdims idx = .ok sh vals) :
+    tooManyIndices (bdims.length + 2) idx = false ∧
+    ∃ e, expandEllipsis (bdims ++ [op.R, op.C]).length idx = some e ∧
+      sh = specShape (List.zip (bdims ++ [op.R, op.C]) e) ∧
+      vals = denseGetitemOp op (List.zip (bdims ++ [op.R, op.C]) e) := by
+  unfold frontEndG at hres
+  by_cases hg : tooManyIndices (bdims.length + 2) idx = true
+  · simp [hg] at hres
+  · simp only [hg, Bool.false_eq_true, if_false] at hres
+    refine ⟨by simpa using hg, ?_⟩
+    cases hf : frontEnd op bdims idx with
+    | none => simp [hf] at hres
+    | some r =>
+      obtain ⟨s, v⟩ := r
+      simp only [hf, FrontOut.ok.injEq] at hres
+      obtain ⟨rfl, rfl⟩ := hres
+      exact frontEnd_eq_torch op h bdims idx _ _ hf
+
+/-- `frontEnd_total_correct` restated for the guarded front end: on the whole domain of the tensor-index path the guard does
+not fire and the answer is torch's shape and values of the original index. -/
+theorem frontEndG_total_correct (op : Opv) (h : Built op) (bdims : List Nat) (idx e : List Item)
+    (he : expandEllipsis (bdims ++ [op.R, op.C]).length idx = some e)
+    (hv : ∀ x ∈ List.zip (bdims ++ [op.R, op.C]) e, itemValid x = true ∧ 0 < x.1)
+    (habs : absorbedOf (normalise (List.zip (bdims ++ [op.R, op.C]) e)) = true) :
+    frontEndG op bdims idx = .ok (specShape (List.zip (bdims ++ [op.R, op.C]) e))
+                                 (denseGetitemOp op (List.zip (bdims ++ [op.R, op.C]) e)) := by
+  have hd : (bdims ++ [op.R, op.C]).length = bdims.length + 2 := by simp
+  have hg := expandEllipsis_some_not_tooMany _ idx e he
+  rw [hd] at hg
+  unfold frontEndG
+  simp only [hg, Bool.false_eq_true, if_false, frontEnd_total_correct op h bdims idx e he hv habs]
+
+/-- the guard fires on `Dense(3×3)[0, 1, 2]` and on `[..., 0, 1, 2]`; the previous code dropped the surplus `2` and answered a scalar -/
+example : frontEndG (Opv.dense 3 3 (fun _ i j => (i : Int) + j)) [] [.int 0, .int 1, .int 2] = .tooMany := by decide
+example : frontEndG (Opv.dense 3 3 (fun _ i j => (i : Int) + j)) [] [.ellipsis, .int 0, .int 1, .int 2] = .tooMany := by decide
+theorem previous_getitem_dropped_surplus_counterexample :
+    previousDroppedSurplus 2 [.int 0, .int 1, .int 2] = [.int 0, .int 1] ∧ tooManyIndices 2 [.int 0, .int 1, .int 2] = true := by decide
+
+/-- **Matmul `_diagonal` = row of the left factor · column of the right factor, for ANY pair of factor operators** (no
+orientation / structure shortcut: triangular factors of equal or opposite orientation, Root, Toeplitz, Kronecker, …, nested,
+batched): outside the Diag-operand branch, entry `q` of `_diagonal` is `Σ_k left[q, k] · right[k, q]` of the dense factors. -/
+theorem matmul_diagonal_rowcol (mode : Nat) (A B : Opv) (hA : Built A) (hB : Built B) (hAB : A.C = B.R) (hsq : A.R = B.C)
+    (hmode : mode ≠ 1) (b : List Nat) (q : Nat) (hq : q < A.R) :
+    (Opv.matmul mode A B).dg b q = sumTo A.C fun k => A.den b q k * B.den b k q :=
+  (refines_matmul mode A B (built_refines A hA) (built_refines B hB) hAB (fun h => absurd h hmode)).2 hsq b q hq
+
+/-- instance: lower-triangular @ upper-triangular (e.g. the lazily built `L @ L.mT`) and upper @ lower, any wrapped operators -/
+theorem matmul_tri_diagonal (L U : Opv) (hL : Built L) (hU : Built U) (hLU : L.C = U.R) (hsq : L.R = U.C)
+    (b : List Nat) (q : Nat) (hq : q < L.R) :
+    (Opv.matmul 2 (Opv.tri L) (Opv.tri U)).dg b q = sumTo L.C fun k => L.den b q k * U.den b k q :=
+  matmul_diagonal_rowcol 2 (Opv.tri L) (Opv.tri U) (.tri L hL) (.tri U hU) hLU hsq (by decide) b q hq
+
 /-- **translator obligation (slice path)**: the statements of the block-aligned shortcuts, of the guard chain in
 `BlockLinearOperator._getitem` and of the `_getitem` overrides of Sum / ConstantMul / Matmul / Root, regenerated from
 /repo on every run, are the ones the model above mirrors. -/
@@ -746,6 +829,7 @@ theorem generated_slicepath_table : LinOp.Generated.C03SlicePath.table = [
   ("SumLinearOperator._getitem", ["results = [linear_op._getitem(row_index, col_index, *batch_indices) for linear_op in self.linear_ops]", "return SumLinearOperator(*results)"]),
   ("ConstantMulLinearOperator._getitem", ["base_linear_op = self.base_linear_op._getitem(row_index, col_index, *batch_indices)", "constant = self._constant.expand(self.batch_shape)[batch_indices]", "return type(self)(base_linear_op=base_linear_op, constant=constant)"]),
   ("MatmulLinearOperator._getitem", ["if torch.is_tensor(row_index) and torch.is_tensor(col_index)", "num_indices = row_index.numel()", "if num_indices > self.matrix_shape.numel()", "return to_linear_operator(self.to_dense())._getitem(row_index, col_index, *batch_indices)", "left_tensor = self.left_linear_op._getitem(row_index, _noop_index, *batch_indices)", "right_tensor = self.right_linear_op._getitem(_noop_index, col_index, *batch_indices)", "res = MatmulLinearOperator(left_tensor, right_tensor)", "return res"]),
-  ("RootLinearOperator._getitem", ["if torch.is_tensor(row_index) and torch.is_tensor(col_index)", "num_indices = row_index.numel()", "if num_indices > self.matrix_shape.numel()", "return to_linear_operator(self.to_dense())._getitem(row_index, col_index, *batch_indices)", "left_tensor = self.root._getitem(row_index, _noop_index, *batch_indices)", "if _equal_indices(row_index, col_index)", "res = self.__class__(left_tensor)", "right_tensor = self.root._getitem(col_index, _noop_index, *batch_indices)", "res = MatmulLinearOperator(left_tensor, right_tensor.mT)", "return res"])] := by decide +kernel
+  ("RootLinearOperator._getitem", ["if torch.is_tensor(row_index) and torch.is_tensor(col_index)", "num_indices = row_index.numel()", "if num_indices > self.matrix_shape.numel()", "return to_linear_operator(self.to_dense())._getitem(row_index, col_index, *batch_indices)", "left_tensor = self.root._getitem(row_index, _noop_index, *batch_indices)", "if _equal_indices(row_index, col_index)", "res = self.__class__(left_tensor)", "right_tensor = self.root._getitem(col_index, _noop_index, *batch_indices)", "res = MatmulLinearOperator(left_tensor, right_tensor.mT)", "return res"]),
+  ("LinearOperator.__getitem__.index_count", ["ndimension = self.ndimension()", "num_to_fill_in = ndimension - (len(index) - 1)", "index = index[:ellipsis_loc] + tuple((_noop_index for _ in range(num_to_fill_in))) + index[ellipsis_loc + 1:]", "index = index + tuple((_noop_index for _ in range(ndimension - len(index))))", "if len(index) > ndimension"])] := by decide +kernel
 
 end LinOp.C03
